@@ -1000,6 +1000,11 @@ func (t *TS) call(s *State, call *ssa.Call) []*State {
 					}
 				}
 			}
+			for _, a := range args {
+				if id, ok := t.txnOf(a); ok && a.K == KTxn {
+					t.event("enter", call, callee.Name(), id, s.G.Txns[id], false, nil)
+				}
+			}
 			outs := t.execFn(callee, args, fav.Binds, s)
 			var res []*State
 			for _, o := range outs {
